@@ -94,7 +94,7 @@ func ParseOp(line string) Op {
 	}
 	op.Kind = parts[0]
 	rest := parts[1:]
-	if (op.Kind == "tx" || op.Kind == "query") && len(rest) > 0 {
+	if (op.Kind == "tx" || op.Kind == "query" || op.Kind == "sim") && len(rest) > 0 {
 		op.Sub = rest[0]
 		rest = rest[1:]
 	}
@@ -362,6 +362,14 @@ func parseFaults(s string) []bool {
 	return f
 }
 
+// Simulate runs the message on a branch that is discarded whatever the outcome (a gas simulation, a CheckTx, or an
+// earlier message of a transaction whose later message fails): nothing of it may influence what follows.
+func (w *World) Simulate(m sdk.Msg, faults []bool) (obs txObs) {
+	w.discard = true
+	defer func() { w.discard = false }()
+	return w.Deliver(m, faults)
+}
+
 func (w *World) Deliver(m sdk.Msg, faults []bool) (obs txObs) {
 	cacheCtx, commit := w.ctx.CacheContext()
 	cacheCtx = cacheCtx.WithEventManager(sdk.NewEventManager())
@@ -391,7 +399,9 @@ func (w *World) Deliver(m sdk.Msg, faults []bool) (obs txObs) {
 	for _, ev := range cacheCtx.EventManager().Events() {
 		obs.events = append(obs.events, showEvent(ev))
 	}
-	commit()
+	if !w.discard {
+		commit()
+	}
 	finish()
 	return obs
 }
@@ -921,6 +931,12 @@ func (s *Session) Exec(op Op) (line string) {
 			return "bad-op"
 		}
 		return s.w.Deliver(m, parseFaults(kv.get("faults"))).line()
+	case "sim":
+		m := buildMsg(op.Sub, kv)
+		if m == nil {
+			return "bad-op"
+		}
+		return s.w.Simulate(m, parseFaults(kv.get("faults"))).line()
 	case "query":
 		return s.w.Query(op.Sub, kv)
 	case "verify":
